@@ -29,6 +29,9 @@ inductive IVar where
   | g1 | g2                -- the global indices of the two pairs handed to a comparison (i1/i2, old/added)
   | a1 | a2                -- the attributes of the two local indices handed to `LocalIndexComparator::compare`
   | nOld | nNew            -- `localIndices_.size()` / `newIndices_.size()` in `merge()`
+  | index                  -- the counter of the loop of `renumberLocal()`
+  | locNo                  -- `pair->local()` inside the constructors of `GlobalLookupIndexSet`
+  | tsize                  -- the `size` argument of `GlobalLookupIndexSet(indexset, size)`
   deriving DecidableEq, Repr
 
 /-- boolean quantities -/
@@ -153,6 +156,33 @@ structure Search where
   missTest : Option BE
   missAct : Act
   foundAct : Act
+  deriving DecidableEq, Repr
+
+/-- a container statement of `endResize()` (the scalar assignments are in `Effects`) -/
+inductive Call where
+  | sortNew      -- `std::sort(newIndices_.begin(), newIndices_.end(), IndexSetSortFunctor<TG,TL>())`
+  | merge        -- `merge()`
+  | unknown      -- a statement the translator does not understand
+  deriving DecidableEq, Repr
+
+/-- the loop of `renumberLocal()`:
+`uint32_t index=<start>; for(auto pair=begin(); pair!=end_; index += <step>, ++pair) pair->local()=<value over index>;` -/
+structure Renum where
+  start : Int
+  step : Int
+  value : IE
+  deriving DecidableEq, Repr
+
+/-- a constructor of `GlobalLookupIndexSet`:
+`size_(<sizeInit over tsize>)`; optionally `for(pair : indexSet_) size_ = max(size_, <foldMax over locNo>)`;
+`indices_` gets `<cells over size>` null cells (`size` = `size_` after that loop) and `size_` becomes `<sizeFinal over size>`;
+then `for(pair : indexSet_) indices_[<slot over locNo>] = &*pair`. -/
+structure TableCtor where
+  sizeInit : IE
+  foldMax : Option IE
+  cells : IE
+  sizeFinal : IE
+  slot : IE
   deriving DecidableEq, Repr
 
 end Src
